@@ -46,6 +46,7 @@ func (c *Connection) beginCall(ctx context.Context, serviceName, methodName stri
 	default:
 		return nil, errConnectionUnknownState{"beginCall", state}
 	}
+	verifPoint("outbound.afterStateCheck", 0)
 
 	deadline, ok := ctx.Deadline()
 	if !ok {
@@ -71,6 +72,7 @@ func (c *Connection) beginCall(ctx context.Context, serviceName, methodName stri
 		return nil, err
 	}
 
+	verifPoint("outbound.afterNewExchange", requestID)
 	// Close may have been called between the time we checked the state and us creating the exchange.
 	if state := c.readState(); state != connectionActive {
 		mex.shutdown()
